@@ -42,7 +42,7 @@ inductive Expr where
   | call (f : String) (a : Expr)
   /-- `scipy.optimize.brentq(f, lo, hi)` -/
   | brentq (f : String) (lo hi : Expr)
-  deriving Repr
+  deriving Repr, DecidableEq
 
 inductive Cond where
   | cmp (op : Cmp) (a b : Expr)
@@ -51,7 +51,7 @@ inductive Cond where
   | not (c : Cond)
   /-- `np.isnan` -/
   | isnan (e : Expr)
-  deriving Repr
+  deriving Repr, DecidableEq
 
 inductive Stmt where
   /-- `_validate_*(args)` (names of variables, string constants) -/
@@ -66,7 +66,7 @@ inductive Stmt where
   | ret (e : Expr)
   /-- `def f(p): return e` -/
   | defn (f p : String) (e : Expr)
-  deriving Repr
+  deriving Repr, DecidableEq
 
 /-! ### token encoding (prefix notation; the translator `cbv/tables/c03.py` writes the same grammar) -/
 
@@ -492,7 +492,7 @@ inductive IStmt where
   | ifsetRecip (x y z : String)
   /-- `if self.f == c1: self.g1 = n1  elif self.f == c2: self.g2 = n2 …` -/
   | case (field : String) (arms : List (String × String × String))
-  deriving Repr
+  deriving Repr, DecidableEq
 
 def encArms : List (String × String × String) → List String
   | [] => []
